@@ -123,3 +123,44 @@ Proof.
 Qed.
 
 (* non-vacuity / reading guide: a two-layer chain where the top holds even positions *)
+
+(* a short image under a longer chain: if the image is a layer of its own size sz, the zero-extended view of it is a
+   layer of every size >= sz (granule g dividing sz) *)
+Theorem clip_layer_ok sz size g (l : layer) :
+  0 < g -> 0 <= sz <= size -> sz mod g = 0 -> layer_ok sz g l -> layer_ok size g (clip_layer sz l).
+Proof.
+  intros Hg Hsz Hszg Hl off n Hoff Hn Hfit Hog Hng. cbn [clip_layer l_read l_src].
+  set (m := Z.min n (sz - off)).
+  destruct (Z.leb_spec m 0) as [Hm|Hm].
+  - (* nothing of the request lies inside the image *)
+    exists [SZero n]. split; [reflexivity|]. split.
+    + cbn [srcs_of flat_map srcs_of_seg]. rewrite app_nil_r.
+      rewrite <- (map_const_zseq Zero off n).
+      apply map_ext_zseq. intros o Ho.
+      destruct (Z.ltb_spec o sz); [|reflexivity]. subst m. lia.
+    + intros o k [Hin|[]]. discriminate.
+  - assert (Hmg : m mod g = 0).
+    { subst m. destruct (Z.min_spec n (sz - off)) as [[_ ->]|[_ ->]]; [assumption|].
+      rewrite Zminus_mod, Hszg, Hog. now rewrite Z.mod_0_l by lia. }
+    assert (Hmfit : off + m <= sz) by (subst m; lia).
+    destruct (Hl off m Hoff ltac:(lia) Hmfit Hog Hmg) as (p & Hp & Hs & Hpar).
+    rewrite Hp. cbn [bind].
+    assert (Hin : map (fun o => if o <? sz then l_src l o else Zero) (zseq off m) = map (l_src l) (zseq off m)).
+    { apply map_ext_zseq. intros o Ho. destruct (Z.ltb_spec o sz); [reflexivity|lia]. }
+    destruct (Z.ltb_spec m n) as [Hlt|Hge].
+    + exists (p ++ [SZero (n - m)]). split; [reflexivity|]. split.
+      * rewrite srcs_of_app, Hs. cbn [srcs_of flat_map srcs_of_seg]. rewrite app_nil_r.
+        replace n with (m + (n - m)) at 2 by lia. rewrite zseq_app by lia. rewrite map_app, Hin. f_equal.
+        rewrite <- (map_const_zseq Zero (off + m) (n - m)).
+        apply map_ext_zseq. intros o Ho. destruct (Z.ltb_spec o sz); [|reflexivity]. subst m. lia.
+      * intros o k Hin' Hk. apply in_app_or in Hin'. destruct Hin' as [Hin'|[Hin'|[]]]; [|discriminate].
+        destruct (Hpar o k Hin' Hk) as (A & B & C & D). repeat split; try assumption. lia.
+    + exists p. split; [reflexivity|]. assert (E : m = n) by (subst m; lia). split.
+      * rewrite Hs, <- Hin. rewrite E. reflexivity.
+      * intros o k Hin' Hk. destruct (Hpar o k Hin' Hk) as (A & B & C & D). repeat split; try assumption. lia.
+Qed.
+
+Lemma clip_parent_same sz l : parent_same l -> parent_same (clip_layer sz l).
+Proof.
+  intros H o o'. cbn [clip_layer l_src]. destruct (o <? sz); [apply H|discriminate].
+Qed.
